@@ -134,18 +134,18 @@ type Engine struct {
 	scalarLoopsOnce bool
 	// cloneFresh: bytes.Clone/slices.Clone yield a distinct value (for rules about aliasing rather than about values)
 	cloneFresh bool
-	funcByName      map[string]*ssa.Function
-	out             []Summary
-	root            *ssa.Function
-	opaque          map[string]bool                 // canonical callee names never inlined
-	globalInit      map[string]*Term                // initial values of package-level variables that are never reassigned after init (key: gaddr term key)
-	uniqueImpl      func(*types.Func) *ssa.Function // the single production implementation of an interface method in the module, if any
-	maxRec          int                             // how many recursive activations of one function may be inlined
-	stub            map[string][]*Term              // callee -> fixed results (composition with an outcome class of the callee)
-	hofMethod       map[string]string               // higher-order callee taking an interface value -> the method of it that is run
-	hof             map[string]int                  // opaque higher-order callee -> index of the function argument it runs (modelled as one synchronous call)
-	bind            map[string]*Term                // term key -> replacement (composition presets)
-	stats           struct{ paths, pruned, loopcut int }
+	funcByName map[string]*ssa.Function
+	out        []Summary
+	root       *ssa.Function
+	opaque     map[string]bool                 // canonical callee names never inlined
+	globalInit map[string]*Term                // initial values of package-level variables that are never reassigned after init (key: gaddr term key)
+	uniqueImpl func(*types.Func) *ssa.Function // the single production implementation of an interface method in the module, if any
+	maxRec     int                             // how many recursive activations of one function may be inlined
+	stub       map[string][]*Term              // callee -> fixed results (composition with an outcome class of the callee)
+	hofMethod  map[string]string               // higher-order callee taking an interface value -> the method of it that is run
+	hof        map[string]int                  // opaque higher-order callee -> index of the function argument it runs (modelled as one synchronous call)
+	bind       map[string]*Term                // term key -> replacement (composition presets)
+	stats      struct{ paths, pruned, loopcut int }
 }
 
 func (e *Engine) inModule(fn *ssa.Function) bool {
